@@ -87,9 +87,15 @@ module Ringasis = struct
   let pref = function "lr" | "rr" -> true | _ -> false
   let pop_of = function "add" -> PAdd | "sub" -> PSub | _ -> PMul
   let bits_of ty = Zar.of_int (match ty with "i8" -> 8 | "i16" -> 16 | "i32" -> 32 | "i64" | "isize" -> 64 | _ -> 128)
-  let uprim side o (x : Zar.t) (p : Zar.t) : Zar.t result option =
+  (* Repr::from_unsigned at word level (Int/RingPrimW4.v: a primitive wider than a double word goes through its little-endian
+     bytes and from_le_bytes_large) must give the representation the by-value conversion inside ubig_prim / ibig_prim gives *)
+  let bytes_of ty = (match ty with "u8" | "i8" -> 1 | "u16" | "i16" -> 2 | "u32" | "i32" -> 4 | "u64" | "i64" | "usize" | "isize" -> 8 | _ -> 16)
+  let conv_ok ty (m : Zar.t) = repr_from_unsigned_w (wz ()) (nat_of_int (bytes_of ty)) m = typed m
+  let uprim ty side o (x : Zar.t) (p : Zar.t) : Zar.t result option =
+    if not (conv_ok ty p) then Some (Err Zar.zero) else
     if small (nwords x) 2 then Some (uval (ubig_prim (wz ()) d21 ts tk chunk sq (pop_of o) (pside side) (pref side) (typed x) p)) else None
-  let iprim signed_ty side o (x : Zar.t) (p : Zar.t) : Zar.t result option =
+  let iprim ty signed_ty side o (x : Zar.t) (p : Zar.t) : Zar.t result option =
+    if not (conv_ok ty (Zar.abs p)) then Some (Err Zar.zero) else
     let s, m = sm x in
     let q = (match signed_ty with Some ty -> ibig_from_signed (wz ()) (bits_of ty) p | None -> ibig_from_unsigned (wz ()) p) in
     if small (nwords m) 2 then Some (sval (ibig_prim (wz ()) d21 ts tk chunk sq (pop_of o) (pside side) (pref side) (s, typed m) q)) else None
@@ -156,10 +162,10 @@ let judge op args got0 =
       let x = a 3 and p = a 4 in
       let l, r = if side = "r" || side = "rr" then (p, x) else (x, p) in
       if op = "uprim" then
-        expect ~extra:(fido (Ringasis.uprim side o x p) got)
+        expect ~extra:(fido (Ringasis.uprim (List.nth args 0) side o x p) got)
           (res_str (match o with "add" -> ubig_add_spec l r | "sub" -> ubig_sub_spec l r | _ -> ubig_mul_spec l r)) got
       else
-        let asis = Ringasis.iprim (if op = "iprim_i" then Some (List.nth args 0) else None) side o x p in
+        let asis = Ringasis.iprim (List.nth args 0) (if op = "iprim_i" then Some (List.nth args 0) else None) side o x p in
         expect_val ~extra:(fido asis got) (match o with "add" -> ibig_add_spec l r | "sub" -> ibig_sub_spec l r | _ -> ibig_mul_spec l r) got
   | "usqr" | "isqr" ->
       let x = a 0 in
